@@ -50,7 +50,7 @@ def run(ctx, res):
     RR.rule_thread_exit(prog, res)
     RR.rule_start_reset(prog, res)
     res.require_min("HAL-FAIL-SUMMARY", 2)
-    res.require_min("R-SINK-ERROR", 10)
+    res.require_min("R-SINK-ERROR", 8)
     res.require_min("R-SOURCE-ERROR", 5)
     res.require_min("R-THREAD-EXIT", 9)
     res.require_min("R-START-RESET", 6)
